@@ -7,7 +7,7 @@ META = dict(
     functions_encoded=["pydra.compose.shell.builder.parse_command_line_template", "remaining_positions", "shell.define (template form)",
                        "pydra.compose.shell.task.ShellTask._command_args (argv in template order)"],
     stubs=[],
-    outside=["MIME-typed tokens that need fileformats extras", "untyped '<name>' tokens (generic/fs-object values must exist on disk)",
+    outside=["MIME types outside fileformats' core package", "input file tokens (values must exist on disk)", "untyped '<name>' tokens (generic/fs-object values must exist on disk)",
              "templates longer than 6 tokens", "numeric values equal to 0 (recorded finding C22-falsy-number)", "template text itself is concrete per condition (regex parsing of a symbolic template is beyond "
              "CrossHair); values are symbolic"],
     assumptions=["string values are drawn by symbolic index from a pool of shell-safe tokens (C23 owns arbitrary characters)"],
@@ -15,7 +15,11 @@ META = dict(
 
 # token kinds: (template text, field name, python type name, optional, multi, default, argv builder key)
 KINDS = ["pos_int", "pos_str", "pos_float", "opt_str", "multi_plus", "multi_star", "default_int", "option_int", "option_str_untyped",
-         "option_opt", "flag", "flag_true", "tuple_opt"]
+         "option_opt", "flag", "flag_true", "tuple_opt", "option_multi_int", "option_multi_tuple", "multi_tuple_plus", "out_explicit", "out_inferred"]
+
+# output tokens: (MIME type or None, explicit path template or None)
+OUT_EXPLICIT = [("text/csv", "marker"), ("text/csv", "m.csv"), ("application/gzip", "z"), (None, "x_tmp.txt"), ("image/png", "pic"), ("generic/file", "plain")]
+OUT_INFERRED = ["text/csv", "image/png", "text/plain", "generic/file", "application/gzip"]
 
 
 def gen_template(rnd, n):
@@ -48,6 +52,18 @@ def gen_template(rnd, n):
             toks.append(f"--{nm}<{nm}>"); specs.append(dict(name=nm, kind="flag", flag=f"--{nm}", default=False))
         elif k == "flag_true":
             toks.append(f"--{nm}<{nm}=True>"); specs.append(dict(name=nm, kind="flag", flag=f"--{nm}", default=True))
+        elif k == "option_multi_int":
+            toks += [f"--{nm}", f"<{nm}:int*>"]; specs.append(dict(name=nm, kind="opt", flag=f"--{nm}", type="int", multi=True, default=[]))
+        elif k == "option_multi_tuple":
+            toks += [f"--{nm}", f"<{nm}:int,str*>"]; specs.append(dict(name=nm, kind="opt", flag=f"--{nm}", type="tuple_is", multi=True, default=[]))
+        elif k == "multi_tuple_plus":
+            toks.append(f"<{nm}:int,str+>"); specs.append(dict(name=nm, kind="pos", type="tuple_is", multi=True))
+        elif k == "out_explicit":
+            mime, tmpl = rnd.choice(OUT_EXPLICIT)
+            toks.append(f"<out|{nm}{':' + mime if mime else ''}${tmpl}>"); specs.append(dict(name=nm, kind="out", mime=mime, template=tmpl))
+        elif k == "out_inferred":
+            mime = rnd.choice(OUT_INFERRED)
+            toks.append(f"<out|{nm}:{mime}>"); specs.append(dict(name=nm, kind="out", mime=mime, template=None))
         elif k == "tuple_opt":
             toks += [f"-{nm[1]}", f"<{nm}:int,float>"]; specs.append(dict(name=nm, kind="opt", flag=f"-{nm[1]}", type="tuple"))
     return "prog " + " ".join(toks), specs
@@ -59,6 +75,8 @@ from pydra.compose import shell
 from pydra.utils.typing import MultiInputObj
 from pydra.utils.general import get_fields
 import pydra.compose.shell.builder as BL
+from pydra.compose.shell.templating import template_update
+from pathlib import Path
 T.assert_repo(BL)
 
 POOL = ["a", "b7", "x.y", "a_b"]
@@ -70,7 +88,8 @@ def _value(spec, raw):
     if k == "flag":
         return raw
     def one(r):
-        return {"int": lambda: r, "str": lambda: POOL[r % len(POOL)], "float": lambda: FLOATS[r % len(FLOATS)], "tuple": lambda: (r, FLOATS[r % len(FLOATS)])}[tp]()
+        return {"int": lambda: r, "str": lambda: POOL[r % len(POOL)], "float": lambda: FLOATS[r % len(FLOATS)], "tuple": lambda: (r, FLOATS[r % len(FLOATS)]),
+                "tuple_is": lambda: (r, POOL[r % len(POOL)])}[tp]()
     if spec.get("multi"):
         return [one(r) for r in raw]
     if raw is None:
@@ -88,20 +107,36 @@ def _expected_argv(specs, values):
             if v is True:
                 out.append(s["flag"])
             continue
+        if s["kind"] == "out":
+            out.append(str(Path.cwd() / _expected_path_template(s)))
+            continue
         if v is None:
             continue
         flag = [s["flag"]] if s["kind"] == "opt" else []
         if s.get("multi"):
             for e in v:
-                out += flag + [_fmt(e)]
+                out += flag + ([_fmt(x) for x in e] if isinstance(e, tuple) else [_fmt(e)])
         elif s.get("type") == "tuple":
             out += flag + [_fmt(e) for e in v]
         else:
             out += flag + [_fmt(v)]
     return out
 
+def _mime_class(mime):
+    from fileformats.core import from_mime
+    from fileformats.generic import FsObject
+    return FsObject if mime is None else from_mime(mime)
+
+def _expected_path_template(s):
+    """written after '$'; otherwise the field name plus the extension of the declared format"""
+    if s["template"] is not None:
+        return s["template"]
+    return s["name"] + (_mime_class(s["mime"]).ext or "")
+
 def _expected_type(s):
-    base = {"int": int, "str": str, "float": float, "tuple": tuple[int, float], None: bool}[s.get("type")]
+    if s["kind"] == "out":
+        return _mime_class(s["mime"])
+    base = {"int": int, "str": str, "float": float, "tuple": tuple[int, float], "tuple_is": tuple[int, str], None: bool}[s.get("type")]
     if s["kind"] == "flag":
         return bool
     if s.get("multi"):
@@ -110,8 +145,21 @@ def _expected_type(s):
         return base | None
     return base
 
+_DEFS = {}
+
+def _define(template):
+    """the template text is concrete: parsing it is executed outside the tracer (nothing symbolic to follow) and once per process"""
+    if template not in _DEFS:
+        if T.tracing():
+            from crosshair.tracers import NoTracing
+            with NoTracing():
+                _DEFS[template] = shell.define(template)
+        else:
+            _DEFS[template] = shell.define(template)
+    return _DEFS[template]
+
 def _c25(template, specs, raws):
-    Task = shell.define(template)
+    Task = _define(template)
     flds = {f.name: f for f in get_fields(Task)}
     for s in specs:
         f = flds.get(s["name"])
@@ -119,6 +167,10 @@ def _c25(template, specs, raws):
             return "template %r: field %s missing (fields %s)" % (template, s["name"], sorted(flds))
         if f.type != _expected_type(s):
             return "template %r: field %s has type %r, the template spells %r" % (template, s["name"], f.type, _expected_type(s))
+        if s["kind"] == "out":
+            if getattr(f, "path_template", None) != _expected_path_template(s):
+                return "template %r: output %s has path template %r, the template spells %r" % (template, s["name"], getattr(f, "path_template", None), _expected_path_template(s))
+            continue
         if "default" in s and not s.get("multi"):
             if f.default != s["default"]:
                 return "template %r: field %s default %r, template says %r" % (template, s["name"], f.default, s["default"])
@@ -126,6 +178,9 @@ def _c25(template, specs, raws):
             return "template %r: optional field %s has default %r" % (template, s["name"], f.default)
     kwargs, values = {}, {}
     for s, raw in zip(specs, raws):
+        if s["kind"] == "out":
+            values[s["name"]] = None
+            continue
         v = _value(s, raw)
         provided = v is not None and not (s.get("multi") and "default" in s and v == [])
         if s["kind"] == "flag":
@@ -138,6 +193,8 @@ def _c25(template, specs, raws):
             values[s["name"]] = v
     t = Task(**kwargs)
     vals = {k: x for k, x in attrs.asdict(t, recurse=False).items() if not k.startswith("_")}
+    if any(s["kind"] == "out" for s in specs):
+        vals.update(template_update(t, cache_dir=Path.cwd()))          # as ShellTask.cmdline / Job.inputs do before building the argv
     got = list(t._command_args(values=vals))
     T.reach()
     want = _expected_argv(specs, values)
@@ -165,7 +222,9 @@ def build(tier, seed, exclude):
         params, pre, raws = [], [], []
         for s in specs:
             n = s["name"]
-            if s["kind"] == "flag":
+            if s["kind"] == "out":
+                raws.append("None")
+            elif s["kind"] == "flag":
                 params.append(f"{n}: bool"); raws.append(n)
             elif s.get("multi"):
                 lo = 0 if "default" in s else 1
